@@ -14,7 +14,7 @@ import signal
 import tempfile
 
 LIBPATH = os.path.join(os.path.dirname(os.path.dirname(os.path.dirname(os.path.abspath(__file__)))), "build", "libfsshim.so")
-LOG, FAIL, EXIT, STEP, LOGALL = 1, 2, 4, 8, 16
+LOG, FAIL, EXIT, STEP, LOGALL, EDIT = 1, 2, 4, 8, 16, 32
 _lib = None
 
 
@@ -26,6 +26,7 @@ def lib():
         _lib = ctypes.CDLL(LIBPATH)
         _lib.fsshim_configure.argtypes = [ctypes.c_char_p, ctypes.c_char_p] + [ctypes.c_int] * 9
         _lib.fsshim_count.restype = ctypes.c_long
+        _lib.fsshim_set_edit.argtypes = [ctypes.c_long, ctypes.c_char_p, ctypes.c_char_p]
     return _lib
 
 
@@ -42,7 +43,8 @@ def parse_log(text: str):
 
 
 def run_child(fn, prefix: str, target: str = "", mode: int = LOG, fail_k: int = -1, fail_errno: int = errno.EIO, fail_k2: int = -1,
-              fail_errno2: int = errno.EIO, exit_k: int = -1, timeout: float = 60.0, logdir: str = "/dev/shm"):
+              fail_errno2: int = errno.EIO, exit_k: int = -1, timeout: float = 60.0, logdir: str = "/dev/shm", edit=None):
+    """edit = (k, path, text): with mode | EDIT the environment rewrites `path` immediately before in-scope call k."""
     """Returns dict(result=..., status=exit code or -signal, log=[...], raised=str|None)."""
     L = lib()
     rfd, wfd = os.pipe()
@@ -56,6 +58,8 @@ def run_child(fn, prefix: str, target: str = "", mode: int = LOG, fail_k: int = 
             os.close(rfd)
             signal.alarm(int(timeout) + 5)
             logfd = os.open(logpath, os.O_WRONLY | os.O_APPEND)
+            if edit is not None:
+                L.fsshim_set_edit(int(edit[0]), edit[1].encode(), edit[2].encode())
             L.fsshim_configure(prefix.encode(), target.encode(), mode, fail_k, fail_errno, fail_k2, fail_errno2, exit_k, logfd, -1, -1)
             try:
                 res = fn()
